@@ -61,6 +61,37 @@ fn four_reps<S: Sc>(d: &mut Draw) -> Outcome {
     ensure_eq!(Matrix3::from(p * q), pm * m3, "composition-matrix3", "M(pq) = M(p) M(q)");
     ensure_eq!(Matrix4::from(p * q), Matrix4::from(p) * m4, "composition-matrix4", "M4(pq) = M4(p) M4(q)");
     ensure_eq!(Matrix3::from(Basis3::from(p) * b3), Matrix3::from(p * q), "composition-basis3", "Basis3(p)*Basis3(q) = Basis3(pq)");
+    // composition through every other way of writing the product: operands by reference, Product over
+    // values and over references (three factors, so that a reversed or mis-bracketed fold shows), concat
+    let ur = spread_unit::<S>(d);
+    let r = mk_q(&ur);
+    let (bp, br) = (Basis3::from(p), Basis3::from(r));
+    let want3 = Matrix3::from(p * q * r);
+    ensure_eq!(Matrix3::from(&bp * &b3), Matrix3::from(p * q), "composition-basis3-refs", "&Basis3(p) * &Basis3(q)");
+    ensure_eq!(Matrix3::from(bp * &b3), Matrix3::from(p * q), "composition-basis3-val-ref", "Basis3(p) * &Basis3(q)");
+    ensure_eq!(Matrix3::from(&bp * b3), Matrix3::from(p * q), "composition-basis3-ref-val", "&Basis3(p) * Basis3(q)");
+    let bl = [bp, b3, br];
+    ensure_eq!(Matrix3::from(bl.iter().product::<Basis3<S>>()), want3, "product-basis3-refs", "Product over &Basis3 = Basis3(p q r)");
+    ensure_eq!(Matrix3::from(bl.iter().cloned().product::<Basis3<S>>()), want3, "product-basis3-values", "Product over Basis3 = Basis3(p q r)");
+    ensure_eq!(Matrix3::from(bl[..1].iter().product::<Basis3<S>>()), pm, "product-basis3-single", "Product of one Basis3");
+    ensure_eq!(Matrix3::from(bl[..0].iter().product::<Basis3<S>>()), Matrix3::identity(), "product-basis3-empty", "empty Product of Basis3 is the identity");
+    let ql = [p, q, r];
+    ensure_eq!(Matrix3::from(ql.iter().product::<Quaternion<S>>()), want3, "product-quaternion-refs", "Product over &Quaternion");
+    ensure_eq!(Matrix3::from(ql.iter().cloned().product::<Quaternion<S>>()), want3, "product-quaternion-values", "Product over Quaternion");
+    let ml = [pm, m3, Matrix3::from(r)];
+    ensure_eq!(ml.iter().product::<Matrix3<S>>(), want3, "product-matrix3-refs", "Product over &Matrix3");
+    ensure_eq!(ml.iter().cloned().product::<Matrix3<S>>(), want3, "product-matrix3-values", "Product over Matrix3");
+    let ml4 = [Matrix4::from(p), m4, Matrix4::from(r)];
+    ensure_eq!(ml4.iter().product::<Matrix4<S>>(), Matrix4::from(p * q * r), "product-matrix4-refs", "Product over &Matrix4");
+    // conversions through the other spellings
+    let b3i: Basis3<S> = q.into();
+    ensure_eq!(b3i, b3, "quaternion-into-basis3", "Into<Basis3>");
+    let m3i: Matrix3<S> = b3.into();
+    ensure_eq!(m3i, m3, "basis3-into-matrix3", "Into<Matrix3> for Basis3");
+    ensure_eq!(Matrix4::from(m3), m4, "matrix3-into-matrix4", "Matrix4::from(Matrix3::from(q)) = Matrix4::from(q)");
+    // inverse agrees across representations
+    ensure_eq!(Matrix3::from(Rotation::invert(&b3)), Matrix3::from(Rotation::invert(&q)), "invert-agrees", "invert() of Basis3 and Quaternion");
+    ensure_eq!(Matrix3::from(Rotation::invert(&b3)), m3.transpose(), "invert-is-transpose", "invert() of Basis3 is the transpose");
     let nt = all_nonzero(&up) && all_nonzero(&uq) && generic_entries(&va);
     pass(if nt { "generic" } else { "degenerate" }, nt)
 }
@@ -145,8 +176,8 @@ pub fn property() -> Property {
             s.push(SubCheck { name: $name, scalar: $scalar, quick: $q, thorough: $t, len: $len, f: $f, required: $req, rule: RULE, exhaustive: false });
         };
     }
-    add!("four_reps-Q", "Q", four_reps::<Q>, 4000, 300_000, 48, &[("generic", 200)]);
-    add!("four_reps-Fp", "Fp", four_reps::<Fp>, 4000, 300_000, 48, &[("generic", 200)]);
+    add!("four_reps-Q", "Q", four_reps::<Q>, 4000, 300_000, 96, &[("generic", 200)]);
+    add!("four_reps-Fp", "Fp", four_reps::<Fp>, 4000, 300_000, 96, &[("generic", 200)]);
     add!("back_conversion-Q", "Q", back_q, 8000, 400_000, 16, BR);
     add!("back_conversion-f64", "f64", back_f64, 8000, 400_000, 64, BRF);
     Property {
